@@ -48,6 +48,22 @@ def run(ctx):
     report.count(len(reach))
     report.extra["integer_casts_scanned"] = n_casts
     report.nontriv("char casts")
+    # ---- R7 nothing folds case or trims on the way: keys and values are read back exactly as written
+    import c16 as _c16
+    n_norm = 0
+    for bid in sorted(reach):
+        b0 = prog.bodies[bid]
+        if b0.crate != "simple_dns":
+            continue
+        for bi, t in mu.calls(b0, r"."):
+            m0 = _c16.NORMALISER.search(t["callee"]["def"]) if t["callee"] else None
+            if m0:
+                n_norm += 1
+                viol(report, "C19-R7", b0, "normalising", "`%s` in %s alters the text (%s): keys / values no longer read back as they were written" % (
+                    t["sp"].get("sn") or m0.group(1), b0.qname, m0.group(1)), t["sp"].get("sn") or m0.group(1))
+    report.count()
+    if not n_norm:
+        report.nontriv("no case folding / trimming")
     # ---- R2 who may construct a CharacterString
     cs_adt = "simple_dns::dns::character_string::CharacterString"
     n_c = 0
